@@ -236,7 +236,7 @@ pub fn gen(tier: Tier, r: &mut Rng, emit: &mut dyn FnMut(String)) {
         }
     }
     // ---- generated texts
-    let n_rand = if quick { 2_500 } else { 120_000 };
+    let n_rand = if quick { 900 } else { 120_000 };
     for i in 0..n_rand {
         let (d, q, n) = gen_triple(r, i);
         let len = match i % 6 {
@@ -275,7 +275,7 @@ pub fn gen(tier: Tier, r: &mut Rng, emit: &mut dyn FnMut(String)) {
         emit(format!("C21 cur {d:02x} {q:02x} {n:02x} {hx} {}", ops.join(",")));
     }
     // ---- rank/select on raw words (zero words, dense words, bits beyond text_len)
-    let n_rs = if quick { 1_500 } else { 60_000 };
+    let n_rs = if quick { 1_000 } else { 60_000 };
     for i in 0..n_rs {
         let nw = r.usize_below(7);
         let ws: Vec<u64> = (0..nw)
